@@ -52,7 +52,7 @@ func checkC14(c *Ctx) error {
 		return err
 	}
 	n := c.Pick(350, 6000)
-	var units []*probe.Unit
+	var units, stubs []*probe.Unit
 	for i := 0; i < n; i++ {
 		r := rand.New(rand.NewSource(c.Seed*1000003 + int64(i)))
 		o := gen.DefaultOpts()
@@ -61,6 +61,23 @@ func checkC14(c *Ctx) error {
 		o.NonFinite = false
 		conf := gen.Behaviour(r, o)
 		units = append(units, &probe.Unit{ID: idOf(i), Cfg: conf, Files: []probe.File{{Name: "gontainer.yaml", Content: conf.YAML()}}, Ops: StdOps(conf, r, false)})
+		if i%3 == 0 {
+			// the stub of the same configuration uses far fewer packages: its import block must list exactly those
+			stubs = append(stubs, &probe.Unit{ID: idOf(i), Cfg: conf, Files: []probe.File{{Name: "gontainer.yaml", Content: conf.YAML()}}, Stub: true})
+		}
+	}
+	lab.Generate(stubs, 16)
+	if err := lab.Compile(stubs); err != nil {
+		return err
+	}
+	for _, u := range stubs {
+		if u.Accepted && u.Source != "" {
+			judgeImportBlock(c, u)
+			c.Add("stub_import_blocks_checked", 1)
+		}
+		if u.Accepted && !u.Compiled {
+			c.Violate("stub-does-not-compile:"+errClass(u.CompileErr), fmt.Sprintf("unit %s (stub): %s", u.ID, firstLines(u.CompileErr, 8)), unitFiles(u))
+		}
 	}
 	err = behaviourUnits(c, lab, units, func(conf *cfg.Config) bool {
 		refs := 0
